@@ -80,6 +80,10 @@ func applyByteFaults(img []byte, fs []ByteFault) []byte {
 			if g, ok := faultdisk.Graft(out, f.Tag, f.Data); ok {
 				out = g
 			}
+		case "bytes":
+			if f.Off+len(f.Data) <= len(out) {
+				copy(out[f.Off:], f.Data)
+			}
 		case "trunc":
 			if f.Off < len(out) {
 				out = out[:f.Off]
@@ -318,6 +322,32 @@ func (e *fdEngine) Generate(seed uint64, tier string, run int) (json.RawMessage,
 			c.Bytes = []ByteFault{bf}
 			if bf.Tag == "cmap" && rf.Chance(0.5) {
 				c.Via = "addfont"
+			}
+			return json.Marshal(c)
+		}
+	}
+	if rk.Chance(0.015) {
+		// structure-aware adversarial plan: CFF subroutines rewritten in place into an acyclic call
+		// chain (fan-out^depth interpreter steps below the nesting limit)
+		var otf []string
+		for _, f := range files {
+			if strings.HasSuffix(strings.ToLower(f), ".otf") {
+				otf = append(otf, f)
+			}
+		}
+		for try := 0; try < 8 && len(otf) > 0; try++ {
+			name := kernel.Pick(rf, otf)
+			pimg := corpus.Bytes(name)
+			if len(pimg) > 4<<20 {
+				continue
+			}
+			patches, gid, ok := faultdisk.CFFSubrChain(pimg, rf.Range(3, 9), rf.Intn)
+			if !ok {
+				continue
+			}
+			c.Font, c.Gid = name, gid
+			for _, p := range patches {
+				c.Bytes = append(c.Bytes, ByteFault{Kind: "bytes", Off: p.Off, Data: p.Data, Aim: "CFF:subr-chain"})
 			}
 			return json.Marshal(c)
 		}
